@@ -1088,8 +1088,13 @@ def masked_iterate_final() -> Callable[[GenerativeFunction[Y]], GenerativeFuncti
         def pre(state, flag: Flag):
             return flag, state
 
-        def post(_unused_args, _xformed, masked_retval: Mask[Y]):
-            return masked_retval.value, None
+        def post(args, _xformed, masked_retval: Mask[Y]):
+            # a masked-off step returns the original input, as documented
+            state, flag = args
+            v = jtu.tree_map(
+                lambda new, old: jnp.where(flag, new, old), masked_retval.value, state
+            )
+            return v, None
 
         # scan_step: (a, bool) -> a
         scan_step = step.mask().dimap(pre=pre, post=post)
